@@ -171,7 +171,7 @@ Vias == {"dial", "stream-last", "stream-first", "unix"}
 (* host: the URL names the server by DNS name or by IP literal (the CA-signed leaf is valid for both, the wrong-name leaf for
    neither); store: the trust store the default connector draws on - the system's, which does not know the test CA, or one that
    contains it (SSL_CERT_FILE) *)
-AddrForms == {"name", "ip"}
+AddrForms == {"name", "ip", "absent"}      \* absent: ldaps:/// over a pre-connected stream - the certificate is checked against the library's substitute, "localhost"
 Stores == {"system", "withCA"}
 Cfgs == [mode : Modes, verify : BOOLEAN, connector : Connectors, timeout : Timeouts, via : Vias, host : AddrForms, store : Stores]
 
